@@ -587,6 +587,21 @@ class HexSys:
             else:
                 self.stats["max_refcount:%d" % (max(counts.values()) if counts else 0)] += 1
             try:
+                # the documented way to re-open a pruning trie: hand it the regenerated counts, then keep using it
+                base = restore(snap, logdict=False)
+                t2 = HexaryTrie(dict(db), bytes(bytearray(root)), prune=True, ref_count=base.regenerate_ref_count())
+                m2 = dict(model)
+                apply_op(t2, m2, ("set", self.keys[0], self.vals[-1]))
+                apply_op(t2, m2, ("set", self.keys[-1], self.vals[0]))
+                apply_op(t2, m2, ("del", self.keys[0]))
+                counts2, bodies2 = mpt.nodes(m2)
+                if t2.root_hash != mpt.root(m2) or dict(t2.db) != bodies2:
+                    viols.append(V("C06", "reopened_with_regenerated_counts", "a pruning trie re-opened with regenerate_ref_count() does not stay exact",
+                                   field="db", prune=True))
+            except Exception as e:  # noqa
+                viols.append(V("C06", "reopened_with_regenerated_counts", f"a pruning trie re-opened with regenerate_ref_count() raised {type(e).__name__}",
+                               field="db", prune=True, exc=repr(e)[:160]))
+            try:
                 regen = {k: v for k, v in (t or restore(snap)).regenerate_ref_count().items() if v}
                 if regen != counts:
                     viols.append(V("C06", "regenerate_ref_count_wrong", "regenerate_ref_count() differs from the true reference counts",
